@@ -1631,21 +1631,47 @@ def _dispatch_rows(idx, fi, call, err_name):
     if not (len(body) == 1 and isinstance(body[0], (ast.Return, ast.Raise))):
         return None
     val = body[0].value if isinstance(body[0], ast.Return) else body[0].exc
+    if isinstance(val, ast.BoolOp) and isinstance(val.op, ast.And) and len(val.values) == 2 and isinstance(val.values[0], ast.Name) \
+            and isinstance(val.values[1], ast.Call) and isinstance(val.values[1].func, ast.Name) and val.values[1].func.id == val.values[0].id:
+        val = val.values[1]           # `replacement and replacement(...)`: no replacement -> None (re-raised unchanged by the caller)
     if not (isinstance(val, ast.Call) and isinstance(val.func, ast.Name) and val.func.id in names):
         return None
     ri = names.index(val.func.id)
     table = lib.inline_locals(lp.iter, h.node)
+    src_module = h.module
+    if isinstance(table, ast.Name) and table.id in h.params:
+        # the table is an argument of the helper: take it from the call
+        pi = h.params.index(table.id)
+        arg = call.args[pi] if pi < len(call.args) else next((k.value for k in call.keywords if k.arg == table.id), None)
+        if arg is None:
+            return None
+        table = lib.inline_locals(arg, fi.node)
+        src_module = fi.module
+    if isinstance(table, ast.Attribute):
+        d = idx.dotted_of(src_module, table.value)
+        kind, obj = idx.resolve_dotted(d) if d else ('external', None)
+        if isinstance(table.value, ast.Name) and table.value.id in ('self', 'cls') and fi.cls is not None:
+            kind, obj = 'class', fi.cls
+        if kind == 'class':
+            k_, vnode = idx.lookup_attr(obj, table.attr)
+            table = vnode if vnode is not None else table
     if isinstance(table, ast.Name):
-        vals = h.module.assigns.get(table.id, [])
+        vals = src_module.assigns.get(table.id, [])
         table = vals[0] if len(vals) == 1 else table
     if not isinstance(table, (ast.Tuple, ast.List)):
         return None
     rows = []
     for row in table.elts:
         if not (isinstance(row, (ast.Tuple, ast.List)) and len(row.elts) == len(names)
-                and isinstance(row.elts[ci], (ast.Name, ast.Attribute)) and isinstance(row.elts[ri], (ast.Name, ast.Attribute))):
+                and isinstance(row.elts[ci], (ast.Name, ast.Attribute))):
             return None
-        rows.append((unparse(row.elts[ci]).split('.')[-1], unparse(row.elts[ri]).split('.')[-1]))
+        rep = row.elts[ri]
+        if isinstance(rep, ast.Constant) and rep.value is None:
+            rows.append((unparse(row.elts[ci]).split('.')[-1], None))
+        elif isinstance(rep, (ast.Name, ast.Attribute)):
+            rows.append((unparse(row.elts[ci]).split('.')[-1], unparse(rep).split('.')[-1]))
+        else:
+            return None
     return rows
 
 
@@ -1722,17 +1748,27 @@ def d4_evalfn(ctx, idx, env):
                     opaque.append(h)
                     continue
                 expanded = []
+                dispatch_calls = []
+                for p in hpaths:
+                    if p.leaf.kind == 'raise' and isinstance(p.leaf.expr, ast.Call) and h.name and _dispatch_rows(idx, fi, p.leaf.expr, h.name):
+                        dispatch_calls.append(p.leaf.expr)
                 for p in hpaths:
                     rows = None
                     if p.leaf.kind == 'raise' and isinstance(p.leaf.expr, ast.Call) and h.name:
                         rows = _dispatch_rows(idx, fi, p.leaf.expr, h.name)
+                    if rows is None and p.leaf.kind == 'raise' and p.leaf.expr is None and any(
+                            any(nf.equal(dc, x) for x in ast.walk(g) if isinstance(x, ast.Call)) for dc in dispatch_calls for g in p.guards):
+                        continue      # `if <dispatch result> is None: raise` -- the rows without a replacement, expanded below
                     if rows:
                         # raise helper(error, ...) where the helper returns the replacement from an ordered (class, replacement) table
                         for i_, (src_cls, dst_cls) in enumerate(rows):
                             shadow = [a_ for a_, _b in rows[:i_] if a_ != src_cls and lib.exc_is_subclass(idx, mod, src_cls, a_)]
-                            leaf = nf.Leaf('raise', ast.Call(func=ast.Name(id=dst_cls if not shadow else rows[[a_ for a_, _ in rows].index(shadow[0])][1],
-                                                                           ctx=ast.Load()), args=[], keywords=[]), p.leaf.stmt)
-                            expanded.append((src_cls, nf.Path(list(p.guards), leaf, p.effects)))
+                            eff = dst_cls if not shadow else rows[[a_ for a_, _ in rows].index(shadow[0])][1]
+                            leaf = nf.Leaf('raise', ast.Call(func=ast.Name(id=eff, ctx=ast.Load()), args=[], keywords=[]) if eff is not None
+                                           else None, p.leaf.stmt)
+                            gs_ = [g for g in p.guards if not any(nf.equal(dc, x) for dc in dispatch_calls for x in ast.walk(g)
+                                                                 if isinstance(x, ast.Call))]
+                            expanded.append((src_cls, nf.Path(gs_, leaf, p.effects)))
                     else:
                         expanded.append((None, p))
                 for forced_src, p in expanded:
@@ -1875,6 +1911,14 @@ def _first_match_value(idx, fi, gen, err_name, cls_name, mod):
     if not (isinstance(gen, (ast.GeneratorExp, ast.ListComp)) and len(gen.generators) == 1):
         return None
     g = gen.generators[0]
+    # whole-row form: next(row for row in TABLE if isinstance(err, row[k]))
+    if isinstance(g.target, ast.Name) and len(g.ifs) == 1 and isinstance(gen.elt, ast.Name) and gen.elt.id == g.target.id:
+        t_ = g.ifs[0]
+        if isinstance(t_, ast.Call) and nf.callee_name(t_) == 'isinstance' and len(t_.args) == 2 and isinstance(t_.args[0], ast.Name) \
+                and t_.args[0].id == err_name and isinstance(t_.args[1], ast.Subscript) and isinstance(t_.args[1].value, ast.Name) \
+                and t_.args[1].value.id == g.target.id and isinstance(t_.args[1].slice, ast.Constant):
+            return _select_row(idx, fi, g.iter, cls_name, mod, None, t_.args[1].slice.value, None)
+        return None
     if not (isinstance(g.target, (ast.Tuple, ast.List)) and all(isinstance(t, ast.Name) for t in g.target.elts) and len(g.ifs) == 1):
         return None
     names = [t.id for t in g.target.elts]
@@ -1884,7 +1928,14 @@ def _first_match_value(idx, fi, gen, err_name, cls_name, mod):
             and isinstance(gen.elt, ast.Name) and gen.elt.id in names):
         return None
     ci, vi = names.index(test.args[1].id), names.index(gen.elt.id)
-    table = lib.inline_locals(g.iter, fi.node)
+    return _select_row(idx, fi, g.iter, cls_name, mod, len(names), ci, vi)
+
+
+def _select_row(idx, fi, iter_expr, cls_name, mod, width, ci, vi):
+    table = lib.inline_locals(iter_expr, fi.node)
+    if isinstance(table, ast.Attribute) and isinstance(table.value, ast.Name) and table.value.id in ('self', 'cls') and fi.cls is not None:
+        k_, vnode = idx.lookup_attr(fi.cls, table.attr)
+        table = vnode if vnode is not None else table
     if isinstance(table, ast.Call):
         try:
             targets, how = idx.resolve_call(fi, table)
@@ -1897,7 +1948,7 @@ def _first_match_value(idx, fi, gen, err_name, cls_name, mod):
     if not isinstance(table, (ast.Tuple, ast.List)):
         return None
     for row in table.elts:
-        if not (isinstance(row, (ast.Tuple, ast.List)) and len(row.elts) == len(names)):
+        if not (isinstance(row, (ast.Tuple, ast.List)) and (width is None or len(row.elts) == width) and ci < len(row.elts)):
             return None
         cl = row.elts[ci]
         classes = [unparse(e).split('.')[-1] for e in (cl.elts if isinstance(cl, (ast.Tuple, ast.List)) else [cl])]
@@ -1907,7 +1958,7 @@ def _first_match_value(idx, fi, gen, err_name, cls_name, mod):
             if kind == 'class':
                 real = obj.name
             if real == cls_name or lib.exc_is_subclass(idx, mod, cls_name, real):
-                return row.elts[vi], row
+                return (row.elts[vi] if vi is not None else row), row
     return 'nomatch'
 
 
@@ -1936,32 +1987,50 @@ def d4_matrix_policy(ctx, idx, env):
             r.ok(construct, 'not caught: propagates as a student-facing error', lib.loc(fi, tr))
             return
         h = hs[0]
-        # resolve `flag = next(<first-match table lookup>)` for this exception class
+        # resolve the first-match table lookup for this exception class and rewrite the handler body with the selected row /
+        # value in place of `next(...)` (the row may hold lambdas: they are applied symbolically below)
+        body = [clone(st) for st in h.body]
         env_ = {}
-        for st in walk_own(h):
+        sel_row = None
+        for i, st in enumerate(body):
             if isinstance(st, ast.Assign) and len(st.targets) == 1 and isinstance(st.targets[0], ast.Name) and isinstance(st.value, ast.Call) \
                     and nf.callee_name(st.value) == 'next' and st.value.args and h.name:
                 sel = _first_match_value(idx, fi, st.value.args[0], h.name, cls_name, mod)
                 if sel is None:
-                    r.undecided(construct, 'first-match lookup not readable: %s' % short(st.value), lib.loc(fi, st))
+                    r.undecided(construct, 'first-match lookup not readable: %s' % short(st.value), lib.loc(fi, h))
                     return
                 if sel == 'nomatch':
-                    r.violation(construct, 'no row of the error-policy table matches ArgumentShapeError although the handler catches it: '
-                                'next(...) raises StopIteration (a non-student-facing error)', lib.loc(fi, st))
-                    return
+                    if len(st.value.args) >= 2:
+                        sel = (st.value.args[1], None)
+                    else:
+                        r.violation(construct, 'no row of the error-policy table matches ArgumentShapeError although the handler catches it: '
+                                    'next(...) raises StopIteration (a non-student-facing error)', lib.loc(fi, h))
+                        return
                 env_[st.targets[0].id] = sel
-        class _Sel(ast.NodeTransformer):
+                sel_row = sel[1] if sel[1] is not None else sel_row
+                st.value = clone(sel[0])
+                for j in range(i + 1, len(body)):
+                    body[j] = nf._Subst({st.targets[0].id: sel[0]}).visit(body[j])
+
+        class _Apply(ast.NodeTransformer):
+            """(lambda p: body)(arg) -> body[p := arg];  (a, b, c)[k] -> element k"""
             def visit_Call(self, node):
-                for orig, (val, row) in lookups:
-                    if nf.equal(nf.canon(orig), nf.canon(node)):
-                        return clone(val)
-                return self.generic_visit(node)
-        lookups = [(st.value, env_[st.targets[0].id]) for st in walk_own(h) if isinstance(st, ast.Assign) and len(st.targets) == 1
-                   and isinstance(st.targets[0], ast.Name) and st.targets[0].id in env_ and isinstance(st.value, ast.Call)]
+                node = self.generic_visit(node)
+                f = node.func
+                if isinstance(f, ast.Lambda) and not node.keywords and len(f.args.args) == len(node.args) and not f.args.vararg:
+                    return nf.subst(f.body, {a.arg: v for a, v in zip(f.args.args, node.args)})
+                return node
+
+            def visit_Subscript(self, node):
+                node = self.generic_visit(node)
+                if isinstance(node.value, (ast.Tuple, ast.List)) and isinstance(node.slice, ast.Constant) and isinstance(node.slice.value, int) \
+                        and -len(node.value.elts) <= node.slice.value < len(node.value.elts):
+                    return node.value.elts[node.slice.value]
+                return node
         try:
-            paths = nf.decision_paths(h.body)
+            paths = nf.decision_paths(body)
             for p_ in paths:
-                p_.guards = [nf.canon(_Sel().visit(clone(g))) for g in p_.guards]
+                p_.guards = [nf.canon(_Apply().visit(clone(g))) for g in p_.guards]
         except AnalysisError as e:
             r.undecided(construct, str(e), lib.loc(fi, h))
             return
@@ -1992,7 +2061,7 @@ def d4_matrix_policy(ctx, idx, env):
             r.ok(construct, 'raised unless suppress_matrix_messages', lib.loc(fi, h))
         else:
             p, gs = bad
-            row = next((v[1] for v in env_.values()), None)
+            row = sel_row
             r.violation(construct, 'an ArgumentShapeError (a default function such as det/cross called with a wrong-shaped argument) is turned '
                         'into a graded result when %s%s: the student is marked wrong instead of being told that the function received '
                         'an argument of the wrong shape; only suppress_matrix_messages may do that'
@@ -2090,6 +2159,39 @@ def d5_numpy_state(ctx, idx):
                                 got.setdefault(k.value, v.text().split('.')[-1])
                 if not ok_loop:
                     understood = False
+            # (a') first-match lookup: cls = next((c for fragment, c in TABLE if fragment in err), default); ...; raise cls
+            for st in walk_own(handler.node):
+                if isinstance(st, ast.Assign) and len(st.targets) == 1 and isinstance(st.targets[0], ast.Name) and isinstance(st.value, ast.Call) \
+                        and nf.callee_name(st.value) == 'next' and st.value.args and isinstance(st.value.args[0], (ast.GeneratorExp, ast.ListComp)):
+                    gen = st.value.args[0]
+                    ok_next = False
+                    if len(gen.generators) == 1 and isinstance(gen.generators[0].target, (ast.Tuple, ast.List)) \
+                            and len(gen.generators[0].target.elts) == 2 and len(gen.generators[0].ifs) == 1 and isinstance(gen.elt, ast.Name):
+                        g_ = gen.generators[0]
+                        frag, cls = [t.id for t in g_.target.elts]
+                        raised_var = any(isinstance(x, ast.Raise) and x.exc is not None and (
+                            (isinstance(x.exc, ast.Name) and x.exc.id == st.targets[0].id) or
+                            (isinstance(x.exc, ast.Call) and isinstance(x.exc.func, ast.Name) and x.exc.func.id == st.targets[0].id))
+                            for x in lib.raises_of(handler.node))
+                        if nf.classify('%s in %s' % (frag, err_param), g_.ifs[0]) == nf.MATCH and gen.elt.id == cls and raised_var:
+                            try:
+                                tab = tables.evaluator(idx).eval(lib.inline_locals(g_.iter, handler.node), tables.Scope(handler.module))
+                            except tables.Unsupported:
+                                tab = None
+                            pairs = None
+                            if tab is not None and tab.kind in ('tuple', 'list') and all(x.kind in ('tuple', 'list') and len(x.args) == 2 for x in tab.args):
+                                pairs = [(x.args[0], x.args[1]) for x in tab.args]
+                            elif tab is not None and tab.kind == 'dict':
+                                pairs = tab.items
+                            if pairs is not None and all(k.kind == 'const' and isinstance(k.value, str) for k, _ in pairs):
+                                ok_next = True
+                                for k, v in pairs:
+                                    got.setdefault(k.value, v.text().split('.')[-1])
+                    if not ok_next:
+                        understood = False
+            if any(isinstance(n, (ast.GeneratorExp, ast.ListComp, ast.DictComp)) or (isinstance(n, ast.Call) and nf.callee_name(n) in ('next', 'get'))
+                   for n in ast.walk(handler.node)) and not got:
+                understood = False
             # (b) if-chain
             try:
                 paths = nf.decision_paths(handler.node.body)
@@ -2222,6 +2324,8 @@ MUTANTS = [
     Mutant('seterr-under-raise', EXPR, "np.seterr(divide='call', over='call', invalid='call')", "np.seterr(divide='call', over='call', under='raise', invalid='call')", 'D5'),
     Mutant('invalid-ignored', EXPR, "np.seterr(divide='call', over='call', invalid='call')", "np.seterr(divide='call', over='call', invalid='ignore')", 'D5'),
     Mutant('seterr-dropped', EXPR, "np.seterr(divide='call', over='call', invalid='call')\n", "", 'D5'),
+    Mutant('np-handler-next-lookup-wrong-class', EXPR, "    if 'divide by zero' in err:\n        raise ZeroDivisionError\n    elif 'overflow' in err:\n        raise OverflowError\n    elif 'value' in err:\n        raise ValueError\n    else:  # pragma: no cover\n        raise Exception(err)",
+           "    error_class = next((klass for fragment, klass in (('divide by zero', ZeroDivisionError), ('overflow', ValueError), ('value', ValueError)) if fragment in err), None)\n    if error_class is None:\n        raise Exception(err)\n    raise error_class", 'D5'),
     Mutant('np-handler-swallows', EXPR, "    elif 'value' in err:\n        raise ValueError", "    elif 'value' in err:\n        return", 'D5'),
 ]
 
